@@ -414,9 +414,9 @@ def self_test() -> None:
                 locale.getlocale(locale.LC_COLLATE) != ('de_DE', 'UTF-8') or _REAL(locale.LC_COLLATE, None) != 'C':
             raise tla.MachineryError('scripted locale._setlocale is not effective')
         locale.setlocale(locale.LC_COLLATE, 'C')
-        sel = selector("compare('a','b','de_DE.UTF-8')")     # parsing evaluates constant calls once
+        sel = selector("compare('a','b',$c)")     # a constant call would be evaluated by the parser
         del log[:]
-        r = sel.select(root())
+        r = sel.select(root(), variables={'c': 'de_DE.UTF-8'})
         evs = [(e['e'], e['v'], e['r']) for e in log]
         want = [('acquire', '', ''), ('query', 'C', ''), ('set', 'L1', 'ok'), ('set', 'C', 'ok'), ('release', '', '')]
         if r != -1 or evs != want:
@@ -504,25 +504,27 @@ def post_matches(exp: tuple, got: tuple) -> bool:
 
 def render_frames(finfo: dict, mode: str, variety: int) -> None:
     """Choose the concrete XPath expression of every top-level frame (dumb rendering of the
-    abstract frame: call-site class, collation class, number of items, how it ends)."""
-    def uri(c, salt):
-        us = coll_uris(c, mode)
-        return q(us[(variety + salt) % len(us)])
-
-    def plain(fi, fid, sites=None):
+    abstract frame: call-site class, collation class, number of items, how it ends).
+    Collations are passed as variables: a constant call would be evaluated by the parser."""
+    def plain(fi, fid, vars_, sites=None):
         if 'Unwind' in fi['acts']:
             tpl = ERROR_SITES[(variety + fid) % len(ERROR_SITES)]
         else:
             sites = sites or PLAIN_SITES
             tpl = sites[(variety + fid) % len(sites)]
-        return tpl.replace('{C}', uri(fi['c'], fid))
+        us = coll_uris(fi['c'], mode)
+        vars_[f'c{fid}'] = us[(variety + fid) % len(us)]
+        return tpl.replace('{C}', f'$c{fid}')
 
     for fid, fi in finfo.items():
         if fi['child']:
             continue
-        C = uri(fi['c'], fid)
+        vars_: dict[str, str] = {}
+        us = coll_uris(fi['c'], mode)
+        vars_[f'c{fid}'] = us[(variety + fid) % len(us)]
+        C = f'$c{fid}'
         if fi['k'] == 'plain':
-            fi['expr'] = plain(fi, fid)
+            fi['expr'] = plain(fi, fid, vars_)
         elif fi['k'] == 'gen':
             n = fi['yields']
             ended = [a for a in fi['acts'] if a in ('Exit', 'Return', 'Unwind', 'Abandon')]
@@ -532,23 +534,24 @@ def render_frames(finfo: dict, mode: str, variety: int) -> None:
                 items = [q(f'a{j}') for j in range(n + more)]
             else:
                 items = [q('a')] * (n + more)
-            if ended and ended[-1] == 'Unwind':
-                items = items[:n] + ['error()']
             seq = '(' + ', '.join(items) + ')'
+            if ended and ended[-1] == 'Unwind':     # n items, then an error raised lazily inside the body
+                item = "concat('a', string($i))" if site == 'distinct-values' else "'a'"
+                seq = f'for $i in 1 to {n + 1} return if ($i = {n + 1}) then error() else {item}'   # '(E)' is eager
             fi['expr'] = f'distinct-values({seq}, {C})' if site == 'distinct-values' else f"index-of({seq}, 'a', {C})"
-            fi['items'] = n + more
         else:  # lazy
             kid = finfo.get(fi.get('kid'))
             tpl = LAZY_SITES[(variety + fid) % len(LAZY_SITES)]
             if kid is None:
                 kid = {'c': 'cp', 'acts': [], 'child': True}
-                kfid = fid + 1
+                kfid = fid + 1000
             else:
                 kfid = fi['kid']
             if '{S}' in tpl and 'Unwind' not in kid['acts']:
-                fi['expr'] = tpl.replace('{S}', plain(kid, kfid, STRING_SITES)).replace('{C}', C)
+                fi['expr'] = tpl.replace('{S}', plain(kid, kfid, vars_, STRING_SITES)).replace('{C}', C)
             else:
-                fi['expr'] = LAZY_SITES[0].replace('{E}', plain(kid, kfid)).replace('{C}', C)
+                fi['expr'] = LAZY_SITES[0].replace('{E}', plain(kid, kfid, vars_)).replace('{C}', C)
+        fi['vars'] = vars_
 
 
 def build_plan(states, path, mode: str, variety: int) -> dict:
@@ -592,7 +595,7 @@ def build_plan(states, path, mode: str, variety: int) -> dict:
     for st in steps:
         if st['cmd'] and st['cmd'][0] == 'call':
             fi = finfo[st['cmd'][1]]
-            st['cmd'] += [fi['k'], fi['expr']]
+            st['cmd'] += [fi['k'], fi['expr'], fi['vars']]
     # what the threads are doing when the behaviour ends
     Dn = states[path[-1][1]]
     waits = {}
@@ -628,13 +631,13 @@ def _driver(world: World, tid: int, cmdq: queue.Queue) -> None:
                 break
             try:
                 if cmd[0] == 'call':
-                    _, fid, kind, expr = cmd
+                    _, fid, kind, expr, vars_ = cmd
                     sel = selector(expr)
                     if kind == 'gen':
-                        it = iters[fid] = sel.iter_select(root())
+                        it = iters[fid] = sel.iter_select(root(), variables=dict(vars_))
                         step(it)
                     else:
-                        sel.select(root())
+                        sel.select(root(), variables=dict(vars_))
                         post(('drv', 'returned'))
                 elif cmd[0] == 'next':
                     step(iters[cmd[1]])
@@ -655,7 +658,7 @@ def _driver(world: World, tid: int, cmdq: queue.Queue) -> None:
         iters.clear()
 
 
-def execute_plan(plan: dict, timeout: float = 3.0) -> dict:
+def execute_plan(plan: dict, timeout: float = 10.0) -> dict:
     """Run one behaviour on the real code.  Returns {'kind': 'conform', ...} or the first divergence."""
     mode = plan['mode']
     names = LOCALE_NAME[mode]
@@ -778,6 +781,19 @@ class G:
         for ei, (s, d, a, args) in enumerate(graph.edges):
             self.out[s].append(ei)
         self.index = {st: sid for sid, st in graph.states.items()}
+        self._proj: dict[int, dict] = {}
+
+    @staticmethod
+    def key(st, t):
+        return (st['inst'], st['lc0'], st['lc'], st['owner'], st['frames'][t - 1])
+
+    def proj(self, t):
+        p = self._proj.get(t)
+        if p is None:
+            p = self._proj[t] = {}
+            for sid, st in self.states.items():
+                p.setdefault(G.key(st, t), sid)
+        return p
 
 
 def cover_paths(g: G, keep, rnd: random.Random, limit: int | None = None) -> tuple[list[list[int]], int]:
@@ -853,11 +869,15 @@ def classify(g: G, other: G | None, path_edges, res: dict) -> str:
     if other is None or res['what'] not in ('event',):
         return 'unmodelled'
     si = res['step']
+    t = res['t']
     src = g.edges[path_edges[si]][0]
+    # what thread t does next depends on the shared state and on its own frames only; the other
+    # threads may be in states that only one variant has
     sid = other.index.get(g.states[src])
     if sid is None:
+        sid = other.proj(t).get(G.key(g.states[src], t))
+    if sid is None:
         return 'unmodelled'
-    t = res['t']
     matched = [tuple(p) for p in res['matched']]
     observed = tuple(res['observed'])
     seen = {sid}
@@ -889,6 +909,8 @@ def replay_job(job):
     path = [g.edges[ei] for ei in pe]
     plan = build_plan(g.states, path, mode, variety)
     res = execute_plan(plan)
+    if res['kind'] == 'diverge' and res['observed'] and res['observed'][0] in ('hung', 'no_ack'):
+        res = execute_plan(plan, timeout=90.0)      # a loaded machine is not a hang: ask again, patiently
     acts = [g.edges[ei][2] for ei in pe]
     devs = [a for a in acts if a in DEVIATIONS]
     Dn = g.states[path[-1][1]]
@@ -937,4 +959,1113 @@ def replay_job(job):
 
 
 def replay_chunk(jobs):
-    return [replay_job(j) for j in jobs]
+    return [(replay_job(j), j) for j in jobs]
+
+
+# ----------------------------------------------------------------------------------------------
+# binding B + API-level observables: monitored public evaluations, logged, validated by TLC
+
+BAD_URI = 'http://example.com/no-such-collation'      # not a UCA URI: taken as a locale name, no fallback
+for _m in ABSTRACT.values():
+    _m[BAD_URI] = 'L2'                                  # used only where L2 is not installed
+
+SINGLE = [
+    "compare('a','b',{A})", "contains('abc','b',{A})", "starts-with('abc','a',{A})", "ends-with('abc','c',{A})",
+    "substring-before('abc','b',{A})", "substring-after('abc','b',{A})", "max(('a','b'),{A})", "min(('b','a'),{A})",
+    "deep-equal(('a','b'),('a','b'),{A})", "distinct-values(('a','b','a'),{A})", "index-of(('a','b','a'),'a',{A})",
+    "contains-token('a b','a',{A})", "collation-key('a',{A})", "sort(('b','a','c'),{A})",
+    "contains-token((1),'a',{A})", "deep-equal((abs#1),(1),{A})", "max(('a',1),{A})",
+    "distinct-values(('a','b','c'),{A})[1]", "exists(index-of(('a','a'),'a',{A}))",
+    "subsequence(distinct-values(('a','b','c'),{A}),2,1)", "count(distinct-values(('a','b'),{A}))",
+    "(compare('a','b',{A}), error())", "distinct-values(for $i in 1 to 2 return if ($i = 2) then error() else 'a', {A})",
+]
+PAIR = [
+    "for $x in distinct-values(('a','b'),{A}) return compare($x,'a',{B})",
+    "for $x in index-of(('a','b','a'),'a',{A}) return contains('abc','b',{B})",
+    "some $x in distinct-values(('a','b'),{A}) satisfies compare($x,'a',{B}) eq 0",
+    "deep-equal(compare('a','b',{A}), -1, {B})",
+    "deep-equal(distinct-values(('a','b'),{A}), ('a','b'), {B})",
+    "index-of(distinct-values(('a','b'),{A}), 'a', {B})",
+    "contains-token(distinct-values(('a b','c'),{A}), 'a', {B})",
+    "for-each-pair(distinct-values(('a','b'),{A}), index-of(('a','a'),'a',{B}), function($a,$b){{$a}})",
+    "(compare('a','b',{A}), compare('a','b',{B}))",
+    "sort(('b','a'),{A}, function($x){{compare($x,'a',{B})}})",
+    "max(distinct-values(('a','b'),{A}), {B})",
+    "compare(substring-before('abc','b',{A}), 'a', {B})",
+    "distinct-values(distinct-values(('a','b'),{A}), {B})",
+]
+STRESS_POOL = SINGLE[:14] + [
+    "for $x in distinct-values(('a','b'),{A}) return compare($x,'a',{CP})",
+    "deep-equal(distinct-values(('a','b'),{A}), ('a','b'))",
+    "(compare('a','b',{A}), compare('a','b',{A}))",
+]
+
+
+class _Alarm(BaseException):
+    pass
+
+
+def _on_alarm(sig, frm):
+    raise _Alarm()
+
+
+def snapshot_globals(world: World | None) -> dict:
+    import elementpath.collations as C
+    ctx = decimal.getcontext()
+    return {
+        'lc': world.current() if world is not None else _REAL(locale.LC_COLLATE, None),
+        'locked': C._locale_collate_lock.locked(),
+        'dec': (ctx.prec, ctx.rounding, ctx.Emin, ctx.Emax, ctx.capitals, ctx.clamp,
+                tuple(sorted(str(k.__name__) for k, v in ctx.traps.items() if v))),
+        'env': dict(os.environ),
+    }
+
+
+def diff_globals(a: dict, b: dict) -> list[str]:
+    out = []
+    if a['lc'] != b['lc']:
+        out.append('lc_collate')
+    if b['locked']:
+        out.append('lock_held')
+    if a['dec'] != b['dec']:
+        out.append('decimal_context')
+    if a['env'] != b['env']:
+        out.append('environ')
+    return out
+
+
+def outcome_of(fn) -> tuple:
+    from elementpath import ElementPathError
+    try:
+        v = fn()
+    except SelfDeadlock:
+        return ('self_wait',)
+    except LockTimeout:
+        return ('hung',)
+    except _Alarm:
+        return ('hung_alarm',)
+    except ElementPathError as e:
+        return ('err', str(getattr(e, 'code', None)))
+    except Exception as e:
+        return ('escaped', type(e).__name__)
+    if isinstance(v, list):
+        v = [repr(x) for x in v]
+    return ('value', repr(v)[:200])
+
+
+def api_select(expr: str, variables: dict | None = None):
+    import elementpath
+    from elementpath.xpath31 import XPath31Parser
+    kw = {'variables': variables} if variables else {}
+    return elementpath.select(root(), expr, parser=XPath31Parser, **kw)
+
+
+def logged_eval(w: World, tid: int, fn) -> tuple:
+    """One public evaluation between a `begin` and an `end` record; after a self-wait / hang the
+    harness (not the code) cleans up, which the trace records as `abort`."""
+    w.emit(tid, 'begin')
+    out = outcome_of(fn)
+    if tid in w.aborted:
+        w.emit(tid, 'abort')
+        w.aborted.discard(tid)
+        if w.lock.owner == tid and w.lock.locked():
+            w.lock.owner = 0
+            w.lock._l.release()
+            if w.mode == 'sim':
+                w.cell = w.init_name
+            else:
+                _REAL(locale.LC_COLLATE, w.init_name)
+    w.emit(tid, 'end', r=out[0])
+    return out
+
+
+def make_world(mode: str, inst: list[str], lc0: str, log: list, tr: int, **kw) -> World:
+    names = LOCALE_NAME[mode]
+    init = 'C.utf8' if (mode == 'real' and lc0 == 'L1') else names[lc0]
+    w = World(mode, installed={names[a] for a in inst}, init=init, log=log, tr=tr, **kw)
+    w.init_name = init
+    log.append({'tr': tr, 't': 0, 's': 0, 'e': 'reset', 'v': '', 'r': '', 'inst': list(inst), 'lc0': lc0})
+    return w
+
+
+def eval_case(case: dict, log: list, tr: int) -> dict:
+    """One monitored evaluation + the later probes, in a fresh world.  API-level observables decide."""
+    mode, inst, lc0 = case['mode'], case['inst'], case['lc0']
+    w = make_world(mode, inst, lc0, log, tr)
+    w.register(1)
+    install(w)
+    old = signal.signal(signal.SIGALRM, _on_alarm)
+    try:
+        if case.get('faults'):
+            w.script.extend(case['faults'])
+        before = snapshot_globals(w)
+        probe_uri = PLAIN_NAME[mode]['L1']
+        # the same probes in an untouched world tell what a later evaluation must answer
+        base = case['_baseline']
+        signal.alarm(20)
+        out = logged_eval(w, 1, lambda: api_select(case['expr'], case.get('vars')))
+        w.script.clear()
+        after = snapshot_globals(w)
+        obs = diff_globals(before, after)
+        p2 = outcome_of(lambda: api_select('default-collation()'))
+        p1 = logged_eval(w, 1, lambda: api_select("compare('a','B',$p)", {'p': probe_uri}))
+        signal.alarm(0)
+        if p1[0] in ('self_wait', 'hung', 'hung_alarm'):
+            obs.append('later_hangs')
+        elif p1 != base[0]:
+            obs.append('later_answer')
+        if p2 != base[1]:
+            obs.append('default_collation')
+        return {'tr': tr, 'outcome': out, 'obs': sorted(set(obs)), 'probe': p1, 'lc_after': after['lc']}
+    finally:
+        signal.alarm(0)
+        signal.signal(signal.SIGALRM, old)
+        uninstall()
+
+
+def baseline(mode: str, inst: list[str], lc0: str) -> tuple:
+    w = make_world(mode, inst, lc0, [], 0)
+    w.register(1)
+    install(w)
+    try:
+        p2 = outcome_of(lambda: api_select('default-collation()'))
+        p1 = outcome_of(lambda: api_select("compare('a','B',$p)", {'p': PLAIN_NAME[mode]['L1']}))
+        return (p1, p2)
+    finally:
+        uninstall()
+
+
+def eval_cases(tier: str, seed: int) -> list[dict]:
+    rnd = random.Random(seed)
+    worlds = [('real', ['L1'], 'C'), ('sim', [], 'C'), ('sim', ['L1'], 'C'), ('sim', ['L1', 'FB'], 'C'),
+              ('sim', ['L1', 'L2', 'FB'], 'C'), ('real', ['L1'], 'L1'), ('sim', ['L1'], 'L1')]
+    classes = ['cp', 'L1', 'L2', 'U1', 'U2', 'UFB', 'bad']
+    cases = []
+    for (mode, inst, lc0) in worlds:
+        def uri(c, k):
+            if c == 'bad':
+                return BAD_URI
+            us = coll_uris(c, mode)
+            return us[k % len(us)]
+        cls = [c for c in classes if not (c == 'bad' and 'L2' in inst)]
+        k = 0
+        for tpl in SINGLE:
+            for a in cls:
+                k += 1
+                if tier == 'quick' and (k % 3 if lc0 != 'C' else k % 2):
+                    continue
+                form = k % 2          # literal collation (the parser evaluates constant calls) or a variable
+                if form:
+                    cases.append({'mode': mode, 'inst': inst, 'lc0': lc0, 'tpl': tpl, 'A': a, 'B': None,
+                                  'expr': tpl.replace('{A}', q(uri(a, k))), 'vars': None})
+                else:
+                    cases.append({'mode': mode, 'inst': inst, 'lc0': lc0, 'tpl': tpl, 'A': a, 'B': None,
+                                  'expr': tpl.replace('{A}', '$a'), 'vars': {'a': uri(a, k)}})
+        pairs = [(a, b) for a in cls for b in cls]
+        for tpl in PAIR:
+            sel = pairs if tier == 'thorough' else rnd.sample(pairs, 8 if lc0 == 'C' else 3)
+            for (a, b) in sel:
+                k += 1
+                t2 = tpl.replace('{{', '{').replace('}}', '}')
+                if k % 2:
+                    cases.append({'mode': mode, 'inst': inst, 'lc0': lc0, 'tpl': tpl, 'A': a, 'B': b,
+                                  'expr': t2.replace('{A}', q(uri(a, k))).replace('{B}', q(uri(b, k + 1))), 'vars': None})
+                else:
+                    cases.append({'mode': mode, 'inst': inst, 'lc0': lc0, 'tpl': tpl, 'A': a, 'B': b,
+                                  'expr': t2.replace('{A}', '$a').replace('{B}', '$b'),
+                                  'vars': {'a': uri(a, k), 'b': uri(b, k + 1)}})
+        # transient faults: setlocale fails although the locale is installed (sim only)
+        if mode == 'sim' and 'L1' in inst:
+            for faults in (['fail'], ['fail', 'fail'], ['fail', 'ok']):
+                for a in ('L1', 'U1'):
+                    k += 1
+                    cases.append({'mode': mode, 'inst': inst, 'lc0': lc0, 'tpl': SINGLE[k % 14], 'A': a, 'B': None,
+                                  'expr': SINGLE[k % 14].replace('{A}', '$a'), 'vars': {'a': uri(a, k)}, 'faults': faults})
+    return cases
+
+
+def eval_chunk(job):
+    """Runs a chunk of evaluation cases; returns (records, log)."""
+    cases, tr0 = job
+    log: list = []
+    recs = []
+    bases: dict = {}
+    for i, case in enumerate(cases):
+        key = (case['mode'], tuple(case['inst']), case['lc0'])
+        if key not in bases:
+            bases[key] = baseline(*[case['mode'], case['inst'], case['lc0']])
+        case['_baseline'] = bases[key]
+        rec = eval_case(case, log, tr0 + i)
+        case.pop('_baseline')
+        rec['case'] = case
+        recs.append(rec)
+    return recs, log
+
+
+def stress_trace(mode: str, inst: list[str], nthreads: int, iters: int, seed: int, log: list, tr: int) -> dict:
+    """Unsynchronised real threads hammering collation call sites (real blocking lock)."""
+    w = make_world(mode, inst, 'C', log, tr, acquire_timeout=30.0)
+    install(w)
+    rnd = random.Random(seed)
+    # collations whose fallback is not installed leak the lock on the pinned tree and would make every
+    # thread wait for the hang detector: those are covered by eval_cases and by binding A
+    cls = ['L1', 'L2', 'cp'] + (['U1'] if 'L1' in inst or 'FB' in inst else []) + (['U2', 'UFB'] if 'FB' in inst else [])
+    progs = []
+    for t in range(nthreads):
+        prog = []
+        for _ in range(iters):
+            tpl = rnd.choice(STRESS_POOL)
+            a = rnd.choice(cls)
+            us = coll_uris(a, mode)
+            prog.append((tpl.replace('{A}', '$a').replace('{CP}', q(CODEPOINT)), {'a': rnd.choice(us)}))
+        progs.append(prog)
+    expected = []
+    w.register(9)
+    saved_log, w.log = w.log, None             # sequential reference run, not logged
+    for prog in progs:
+        expected.append([outcome_of(lambda e=e, v=v: api_select(e, v)) for e, v in prog])
+    w.log = saved_log
+    pre_obs = []
+    if w.lock.locked():                        # the sequential run already leaked: report, start clean
+        pre_obs.append('lock_held')
+        w.lock.owner = 0
+        w.lock._l.release()
+    w.aborted.clear()
+    results: list = [None] * nthreads
+
+    stop = threading.Event()
+
+    def work(t):
+        w.register(t + 1)
+        res = []
+        for e, v in progs[t]:
+            if stop.is_set():              # somebody hangs: the verdict is in, do not wait for it again and again
+                break
+            out = logged_eval(w, t + 1, lambda e=e, v=v: api_select(e, v))
+            res.append(out)
+            if out[0] in ('self_wait', 'hung', 'hung_alarm'):
+                stop.set()
+        results[t] = res
+
+    old = sys.getswitchinterval()
+    sys.setswitchinterval(1e-6)
+    try:
+        ths = [threading.Thread(target=work, args=(t,), daemon=True) for t in range(nthreads)]
+        for th in ths:
+            th.start()
+        for th in ths:
+            th.join(timeout=120)
+        alive = sum(th.is_alive() for th in ths)
+    finally:
+        sys.setswitchinterval(old)
+    after_lc, locked = w.current(), w.lock.locked()
+    uninstall()
+    diffs = []
+    for t in range(nthreads):
+        if results[t] is None:
+            diffs.append((t, 'no result'))
+            continue
+        if len(results[t]) < len(progs[t]):
+            diffs.append((t, 'stopped after a hang', len(results[t])))
+        for (e, v), x, y in zip(progs[t], expected[t], results[t]):
+            if x != y:
+                diffs.append((t, e, v, x, y))
+    obs = list(pre_obs)
+    if alive:
+        obs.append('threads_hung')
+    if locked and 'lock_held' not in obs:
+        obs.append('lock_held')
+    if w.abstract(after_lc) != 'C':
+        obs.append('lc_collate')
+    if diffs:
+        obs.append('concurrent_answer')
+    return {'tr': tr, 'obs': obs, 'diffs': diffs[:3], 'evaluations': nthreads * iters,
+            'case': {'kind': 'stress', 'mode': mode, 'inst': inst, 'threads': nthreads, 'iters': iters, 'seed': seed}}
+
+
+def stress_chunk(job):
+    log: list = []
+    recs = [stress_trace(*a, log=log, tr=tr) for (a, tr) in job]
+    return recs, log
+
+
+def add_hints(log: list) -> None:
+    """acquire.v := locale of the next `set` of the same thread in the same trace (search hint only)."""
+    nxt: dict = {}
+    for ev in reversed(log):
+        key = (ev['tr'], ev['t'])
+        if ev['e'] == 'set':
+            nxt[key] = ev['v']
+        elif ev['e'] == 'acquire':
+            ev['v'] = nxt.get(key, '')
+        elif ev['e'] == 'reset':
+            nxt = {}
+
+
+def _validate_part(args):
+    wd, name, part, threads = args
+    os.makedirs(wd, exist_ok=True)
+    consts = dict(Threads=set(range(1, threads + 1)), Configs=frozenset([frozenset()]), InitLocales={'C'},
+                  Colls={'L1', 'L2', 'U1', 'U2', 'UFB'}, Kinds={'plain', 'gen', 'lazy'}, MaxCalls=0, MaxDepth=4,
+                  MaxItems=0, Variant='union', Transient=True)
+    cfg = tla.cfg_text(consts, spec='TraceSpec', invariants=['TraceInv'], postcondition='MaxPos')
+    # trace ids are renumbered 1..K inside the file (they index TLC registers)
+    ids: dict[int, int] = {}
+    path = os.path.join(wd, 'trace.ndjson')
+    with open(path, 'w') as f:
+        for ev in part:
+            k = ids.setdefault(ev['tr'], len(ids) + 1)
+            f.write(json.dumps(dict(ev, tr=k)) + '\n')
+        f.write(json.dumps({'tr': 0, 't': 0, 's': 0, 'e': 'reset', 'v': '', 'r': '', 'inst': [], 'lc0': 'C'}) + '\n')
+    back = {k: t for t, k in ids.items()}
+    r = tla.run_tlc('TraceCollation', cfg, wd, workers=1, env={'TRACE_FILE': path}, timeout=2400, heap='3g')
+    if not r.ok or r.violated:
+        raise tla.MachineryError(f'TLC failed on TraceCollation/{name}: ' + '\n'.join(r.output.splitlines()[-30:]))
+    accepted: dict[int, list] = {}
+    for v in tla.printed_values(r.output, 'acc'):
+        accepted.setdefault(back[v[0]], []).append((sorted(v[1]), sorted(v[2])))
+    maxpos = {back[v[0]]: v[1] for v in tla.printed_values(r.output, 'maxpos')}
+    if set(maxpos) != set(ids):
+        raise tla.MachineryError(f'TraceCollation/{name}: {len(ids)} traces written, {len(maxpos)} seen by TLC')
+    rejected = []
+    for t in ids:
+        if t not in accepted:
+            n = maxpos[t]                       # 1-based index of the last explained line
+            rejected.append((t, part[n] if n < len(part) and part[n]['tr'] == t else {'e': '(end of trace)'}))
+    return accepted, rejected, [r]
+
+
+def validate_traces(chk: core.Check, log: list, name: str, threads: int = 3, parts: int = 8):
+    """TLC validates the log against TraceCollation (split at trace boundaries over `parts` JVMs).
+    Returns ({trace id: [(dev, bad), ...]} for the accepted traces, [(trace id, first unmatched line)])."""
+    add_hints(log)
+    starts = [i for i, ev in enumerate(log) if ev['e'] == 'reset']
+    if not starts:
+        return {}, []
+    parts = max(1, min(parts, len(starts)))
+    per = (len(starts) + parts - 1) // parts
+    cuts = [starts[i] for i in range(0, len(starts), per)] + [len(log)]
+    jobs = [(os.path.join(chk.scratch, f'{name}-{k}'), name, log[cuts[k]:cuts[k + 1]], threads)
+            for k in range(len(cuts) - 1)]
+    accepted: dict[int, list] = {}
+    rejected: list = []
+    with ThreadPoolExecutor(max_workers=len(jobs)) as ex:
+        for k, (acc, rej, models) in enumerate(ex.map(_validate_part, jobs)):
+            accepted.update(acc)
+            rejected += rej
+            for j, r in enumerate(models):
+                chk.model(f'TraceCollation/{name}-{k}#{j + 1}', r)
+    return accepted, rejected
+
+
+# ----------------------------------------------------------------------------------------------
+# Globals: os.environ, decimal context, allow_environment gate, entity-declaring DOCTYPE
+
+NAME_BIND = {'N1': 'VERIF_C19_A', 'N2': 'PATH', 'N3': 'verif c19 \u00fc'}
+ENT_TEXT = {
+    'none': '<r>t</r>',
+    'internal': '<!DOCTYPE r [<!ENTITY e "x">]><r>&e;</r>',
+    'internal_unused': '<!DOCTYPE r [<!ENTITY e "x">]><r/>',
+    'external': '<!DOCTYPE r [<!ENTITY e SYSTEM "file:///etc/hostname">]><r>&e;</r>',
+    'parameter': '<!DOCTYPE r [<!ENTITY % p "<!ENTITY e \'x\'>"> %p;]><r>&e;</r>',
+    'unparsed': '<!DOCTYPE r [<!NOTATION n SYSTEM "n"><!ENTITY e SYSTEM "x.gif" NDATA n>]><r/>',
+    'nested': '<!DOCTYPE r [<!ENTITY a "aa"><!ENTITY b "&a;&a;">]><r>&b;</r>',
+    'doctype': '<!DOCTYPE r><r/>',
+}
+PREFIX = {'bare': '', 'ws': '\n  ', 'comment': '<!--c-->', 'pi': '<?p x?>',
+          'xmldecl': '<?xml version="1.0" encoding="utf-8"?>'}
+DEC_OPS = {
+    'div': '1 div 3', 'round': 'round-half-to-even(2.345, 2)', 'mul': "xs:decimal('1.10') * 3",
+    'sum': 'sum((0.1, 0.2, 0.3))', 'avg': 'avg((1, 2, 2.5))', 'idiv': '10 idiv 3.3', 'mod': '10.5 mod 3',
+    'format': "format-number(1234.5, '#,##0.00')", 'cast': 'xs:decimal(1e0 div 3)', 'round2': 'round(2.567, 2)',
+    'big': "xs:decimal('12345678901234567890.123456789') * xs:decimal('98765432109876543210.987654321')",
+    'sci': "xs:decimal('0.000000000000000000001') div 7",
+}
+
+
+def project_globals(act, raw):
+    if raw[0] != 'value':
+        return ('reject',) if act == 'ParseXml' else ('raised', raw)
+    v = raw[1]
+    if act == 'EnvVar':
+        if v == []:
+            return ('empty',)
+        for a, n in NAME_BIND.items():
+            if v == 'value-of-' + n:
+                return ('value', a)
+        return ('value', '?')
+    if act == 'AvailVars':
+        vs = v if isinstance(v, list) else [v]
+        return ('names', frozenset(a if (a := {n: k for k, n in NAME_BIND.items()}.get(x)) else '?' for x in vs))
+    if act == 'ParseXml':
+        return ('doc',)
+    return ('any',)
+
+
+
+def globals_worker(job):
+    """Replays every transition of the Globals graph in one process (history of os.environ kept)."""
+    states, order, out_edges = job
+    import elementpath
+    from elementpath.xpath30 import XPath30Parser
+    from elementpath.xpath31 import XPath31Parser
+    import xml.etree.ElementTree as ET
+    import lxml.etree as LET
+    roots = {'etree': ET.XML('<r><a>x</a></r>'), 'lxml': LET.XML('<r><a>x</a></r>')}
+    parsers = {'3.0': XPath30Parser, '3.1': XPath31Parser}
+    os.environ.clear()
+    fails = []
+    stats = collections.Counter()
+    samples = []
+
+    for sid in order:
+        st = states[sid]
+        want = {NAME_BIND[a] for a in st['env']}
+        for n in list(os.environ):           # the application changes its environment (App actions)
+            if n not in want:
+                del os.environ[n]
+                stats['transitions'] += 1
+        for n in want:
+            if n not in os.environ:
+                os.environ[n] = 'value-of-' + n
+                stats['transitions'] += 1
+        for (dst, act, args) in out_edges.get(sid, ()):
+            if act in ('SetVar', 'UnsetVar'):
+                continue
+            exp = states[dst]['res']
+            if act == 'EnvVar':
+                expr, kw, var = 'environment-variable($n)', {'allow_environment': True} if args[1] else {}, {'n': NAME_BIND[args[0]]}
+            elif act == 'AvailVars':
+                expr, kw, var = 'available-environment-variables()', {'allow_environment': True} if args[0] else {}, {}
+            elif act == 'ParseXml':
+                expr, kw, var = f'{args[0]}($x)', {}, {'x': PREFIX[args[2]] + ENT_TEXT[args[1]]}
+            else:
+                expr, kw, var = DEC_OPS[args[0]], {}, {}
+            stats['transitions'] += 1
+            if (act == 'ParseXml' and states[dst]['last']['ek'] != 'none') or (act in ('EnvVar', 'AvailVars') and st['env']):
+                stats['nontrivial'] += 1       # an entity-declaring text / a non-empty environment
+            for lib, rt in roots.items():
+                for ver, pc in parsers.items():
+                    before = snapshot_globals(None)
+
+                    def ev():      # Selector.select passes its keyword arguments to the dynamic context
+                        return elementpath.Selector(expr, parser=pc).select(rt, variables=dict(var), **kw)
+                    try:
+                        raw = ('value', ev())
+                    except Exception as e:
+                        raw = ('raised', type(e).__name__, str(getattr(e, 'code', None)))
+                    stats['evaluations'] += 1
+                    obs = project_globals(act, raw)
+                    mon = diff_globals(before, snapshot_globals(None))
+                    bad = None
+                    if act == 'AvailVars' and tuple(exp) == ('empty',):
+                        exp = ('names', frozenset())          # an empty sequence either way
+                    if exp[0] != 'any' and tuple(exp) != tuple(obs):
+                        bad = 'result'
+                    if mon:
+                        bad = 'globals:' + '+'.join(mon)
+                    if bad:
+                        feat = {'part': 'globals', 'action': act, 'what': bad,
+                                'arg': args[1] if act == 'ParseXml' else (str(args[-1]) if args else ''),
+                                'fn': args[0] if act == 'ParseXml' else act, 'prefix': args[2] if act == 'ParseXml' else ''}
+                        fails.append((feat, {'kind': 'globals', 'env': sorted(want), 'expr': expr, 'vars': var, 'kw': kw,
+                                             'lib': lib, 'parser': ver, 'action': act, 'args': list(args)},
+                                      list(exp), [str(x) for x in obs] + [str(raw)[:120]]))
+                    elif len(samples) < 3 and act == 'ParseXml' and exp[0] == 'reject':
+                        samples.append({'part': 'globals', 'expr': expr, 'vars': var, 'expected': list(exp), 'observed': str(raw)[:80]})
+    return dict(stats), fails, samples
+
+
+# ----------------------------------------------------------------------------------------------
+# exploration: independent Selector objects on 8 real threads == sequential results
+
+THREAD_DOCS = ['<r><a x="1">t</a><b><a>u</a><c/></b><a>t</a></r>', '<r><b y="2"/><b>5</b><b>7</b></r>']
+THREAD_EXPRS = [
+    '//a', '//a/..', '//a[last()]', 'count(//*)', '//b/following::*', '//@*', 'string-join(//a, "|")',
+    'sum(//b[. castable as xs:integer])', 'for $x in //a return string($x)', 'distinct-values(//a)',
+    'index-of((1,2,3,2), 2)', 'reverse(1 to 5)', 'subsequence(1 to 10, 3, 4)', 'matches("abc", "\\p{L}+")',
+    'replace("a1b22", "\\d+", "#")', 'tokenize("a b  c", "\\s+")', 'matches("\u00e9", "[\\p{IsLatin-1Supplement}]")',
+    'upper-case("abc")', 'substring("12345", 2, 3)', 'compare("a", "b")', 'contains("abc", "b")',
+    'xs:decimal("1.5") * 3', '10 idiv 3', '7 mod 2', 'round(2.5)', 'xs:date("2020-02-29") + xs:yearMonthDuration("P1Y")',
+    'deep-equal(//a, //a)', 'some $x in (1,2,3) satisfies $x > 2', 'string-length(string(/r))', 'name(/*)',
+    'sort((3,1,2))', 'map:keys(map{"a":1,"b":2})', 'array:size([1,2,3])', 'parse-json("[1,2]")?2',
+    'fold-left(1 to 5, 0, function($a,$b){$a+$b})', 'for-each((1,2,3), function($x){$x*2})',
+    "compare('a','B','C.utf8')", "distinct-values(('a','b','a'),'C.utf8')", "max(('a','b'),'C.utf8')",
+    "sort(('b','a'),'C.utf8')", "contains('abc','b','http://www.w3.org/2013/collation/UCA?lang=C')",
+    'analyze-string("a1", "\\d")/*/string()', 'format-integer(12, "w")', 'xs:string(xs:float("1.5"))',
+]
+
+
+def _proj_result(v):
+    if isinstance(v, list):
+        return [_proj_result(x) for x in v]
+    if hasattr(v, 'tag'):
+        return ('elem', str(v.tag), v.text)
+    return repr(v)
+
+
+def threads_exploration(nthreads: int, rounds: int) -> dict:
+    import xml.etree.ElementTree as ET
+    from elementpath import Selector
+    from elementpath.xpath31 import XPath31Parser
+    docs = [ET.XML(x) for x in THREAD_DOCS]
+
+    def build():
+        return [Selector(e, parser=XPath31Parser) for e in THREAD_EXPRS]
+
+    def run_all(sels):
+        out = []
+        for d in docs:
+            for s in sels:
+                try:
+                    out.append(_proj_result(s.select(d)))
+                except Exception as e:
+                    out.append(('raised', type(e).__name__, str(getattr(e, 'code', None))))
+        return out
+
+    before = snapshot_globals(None)
+    expected = run_all(build())
+    results: list = [None] * nthreads
+
+    def work(i):
+        sels = build()                     # independent Selector objects
+        res = []
+        for _ in range(rounds):
+            res.append(run_all(sels))
+        results[i] = res
+
+    old = sys.getswitchinterval()
+    sys.setswitchinterval(1e-6)
+    try:
+        ths = [threading.Thread(target=work, args=(i,), daemon=True) for i in range(nthreads)]
+        for th in ths:
+            th.start()
+        for th in ths:
+            th.join(timeout=300)
+        alive = sum(th.is_alive() for th in ths)
+    finally:
+        sys.setswitchinterval(old)
+    diffs = []
+    for i, res in enumerate(results):
+        if res is None:
+            diffs.append({'thread': i, 'what': 'no result (hung or crashed)'})
+            continue
+        for rnd_i, out in enumerate(res):
+            for k, (x, y) in enumerate(zip(expected, out)):
+                if x != y:
+                    diffs.append({'thread': i, 'round': rnd_i, 'doc': k // len(THREAD_EXPRS),
+                                  'expr': THREAD_EXPRS[k % len(THREAD_EXPRS)], 'sequential': x, 'concurrent': y})
+    mon = diff_globals(before, snapshot_globals(None))
+    return {'evaluations': nthreads * rounds * len(expected), 'diffs': diffs, 'alive': alive, 'monitor': mon,
+            'nonerror': sum(1 for x in expected if not (isinstance(x, tuple) and x and x[0] == 'raised'))}
+
+
+# ----------------------------------------------------------------------------------------------
+# the cross-cutting monitor on another module's vectors (Paths / C01)
+
+def monitor_paths(chk: core.Check) -> dict:
+    from ..xmlbind import Doc
+    from . import c01
+    wd = os.path.join(chk.scratch, 'paths')
+    dot = os.path.join(wd, 'g.dot')
+    os.makedirs(wd, exist_ok=True)
+    consts = dict(c01.CONFIGS['quick'][1][1])
+    r = tla.require_ok(tla.run_tlc('Paths', tla.cfg_text(consts, spec='Spec', invariants=['TypeOK']), wd,
+                                   dump_dot=dot, workers=4), 'Paths (monitor vectors)')
+    chk.model('Paths/N2 (vectors for the global-state monitor)', r)
+    g = tla.load_dot(dot)
+    out = g.out()
+    n = hits = 0
+    hit_samples = []
+    base = snapshot_globals(None)
+    for init in g.init:
+        st0 = g.states[init]
+        doc = Doc(st0['parent'], st0['kind'], 'etree')
+        prefix = {init: '/'}
+        dq = collections.deque([init])
+        while dq:
+            s = dq.popleft()
+            for (d, act, args) in out[s]:
+                if act == 'Root':
+                    continue
+                text = c01.extend(prefix[s], act, args, 'R1')[0]
+                c01.ep_eval(doc, 'R1', '3.1', text, 'selector')
+                n += 1
+                mon = diff_globals(base, snapshot_globals(None))
+                if mon:
+                    hits += 1
+                    if len(hit_samples) < 3:
+                        hit_samples.append({'path': text, 'xml': doc.xml(), 'changed': mon})
+                    uninstall()
+                if d not in prefix:
+                    prefix[d] = text
+                    dq.append(d)
+    return {'evaluations': n, 'hits': hits, 'samples': hit_samples}
+
+
+# ----------------------------------------------------------------------------------------------
+# the check
+
+ALL_CONFIGS = [[], ['L1'], ['L1', 'FB'], ['L1', 'L2', 'FB']]
+ALL_KINDS = {'plain', 'gen', 'lazy'}
+
+
+def _consts(threads, colls, kinds, maxcalls, configs, inits=('C',), transient=False, maxitems=1, depth=3, variant='property'):
+    return dict(Threads=set(range(1, threads + 1)), Configs=frozenset(frozenset(c) for c in configs),
+                InitLocales=set(inits), Colls=set(colls), Kinds=set(kinds), MaxCalls=maxcalls, MaxDepth=depth,
+                MaxItems=maxitems, Variant=variant, Transient=transient)
+
+
+REPLAY_CONFIGS = {
+    'quick': [
+        ('1thr', dict(threads=1, colls=['cp', 'L1', 'U2', 'UFB'], kinds=ALL_KINDS, maxcalls=2, configs=ALL_CONFIGS,
+                      inits=('C', 'L1'), transient=True, maxitems=2)),
+        ('2thr', dict(threads=2, colls=['cp', 'L1', 'U2'], kinds=ALL_KINDS, maxcalls=1, configs=ALL_CONFIGS[:3])),
+    ],
+    'thorough': [
+        ('1thr', dict(threads=1, colls=['cp', 'L1', 'L2', 'U1', 'U2', 'UFB'], kinds=ALL_KINDS, maxcalls=3,
+                      configs=ALL_CONFIGS, inits=('C', 'L1'), transient=True, maxitems=2)),
+        ('2thr', dict(threads=2, colls=['cp', 'L1', 'U2'], kinds=ALL_KINDS, maxcalls=1, configs=ALL_CONFIGS[:3])),
+        ('2thr2', dict(threads=2, colls=['L1', 'U2'], kinds={'plain', 'gen'}, maxcalls=2, configs=ALL_CONFIGS[:3],
+                       transient=True, depth=2)),
+        ('3thr', dict(threads=3, colls=['L1', 'U2'], kinds={'plain', 'gen'}, maxcalls=1, configs=ALL_CONFIGS[:3], depth=1)),
+    ],
+}
+DESIGN_CONFIGS = {
+    'quick': dict(threads=2, colls=['L1', 'U2'], kinds=ALL_KINDS, maxcalls=2, configs=ALL_CONFIGS[:3]),
+    'thorough': dict(threads=3, colls=['L1', 'U2'], kinds=ALL_KINDS, maxcalls=2, configs=ALL_CONFIGS[:3], inits=('C', 'L1')),
+}
+LIVE_CONFIG = dict(threads=2, colls=['L1', 'U2'], kinds=ALL_KINDS, maxcalls=1, configs=ALL_CONFIGS[:3])
+LIVE_CONFIG_THOROUGH = dict(threads=3, colls=['L1', 'U2'], kinds={'plain', 'gen'}, maxcalls=1, configs=ALL_CONFIGS[:3], depth=2)
+SAFETY = ['TypeOK', 'Safety', 'NoHoldWhileSuspended']
+GLOBALS_CONSTS = {
+    'quick': dict(Names={'N1', 'N2'}, EntKinds={'none', 'internal', 'internal_unused', 'external', 'parameter', 'unparsed',
+                                                'nested', 'doctype'},
+                  Prefixes={'bare', 'ws', 'comment', 'xmldecl'}, Ops={'div', 'round', 'mul', 'sum', 'big', 'format'}),
+    'thorough': dict(Names={'N1', 'N2', 'N3'}, EntKinds=set(ENT_TEXT), Prefixes=set(PREFIX), Ops=set(DEC_OPS)),
+}
+_live_re = re.compile(r'Temporal propert(?:y|ies) .*violated')
+_act_re = re.compile(r'^State \d+: <(\w+(?:\([^)]*\))?)', re.M)
+
+
+def _report(chk: core.Check, feat: dict, case: dict, exp, obs, what: str, count: int) -> None:
+    chk.fail(feat, case, exp, obs, what)
+    if count > 1:
+        for idx, kf in enumerate(chk.known):
+            if core.match_pattern(kf['fingerprint'], core.jsonable(feat)):
+                chk.known_hits[idx] = chk.known_hits.get(idx, 0) + count - 1
+                break
+
+
+def _in_child(fn, arg):
+    import multiprocessing as mp
+    with mp.get_context('fork').Pool(1) as pool:
+        return pool.apply(fn, (arg,))
+
+
+def _threads_job(arg):
+    return threads_exploration(*arg)
+
+
+def run(chk: core.Check) -> None:
+    core.setup_repo_path()
+    tier = chk.tier
+    self_test()
+    chk.assumptions += [
+        'spec/CollationLock.tla (property variant) is the oracle of the lock/locale mechanism; TLC proves its safety invariants '
+        'and liveness within the listed constants before anything is replayed; the pinned variant must violate NoLockLeak, '
+        'NoSelfWait, NoStuck and EveryCallReturns (else exit 2)',
+        'locale._setlocale is scripted: abstract locales L1/L2/FB stand for de_DE.UTF-8/it_IT.UTF-8/en_US.UTF-8 (simulated, any '
+        'installed-locale configuration) and for C.utf8/de_DE.UTF-8/en_US.UTF-8 on the real C library (configuration {L1} only)',
+        'the collation ORDER, a failing restore inside __exit__, flags of the decimal context and DOCTYPEs that declare no '
+        'entity are outside the property',
+        'XPath2Parser.__init__ reads LC_COLLATE without the lock; Selectors are compiled before the gated section starts',
+        'thread runs with sys.setswitchinterval(1e-6) (8 threads, stress traces) are exploration; the gated replays are exhaustive '
+        'over the dumped TLC graphs',
+    ]
+    rnd = random.Random(chk.seed)
+
+    # ---- stage A: real evaluations that produce the logs (fork pools, no helper threads yet) ----
+    t0 = time.time()
+    cases = eval_cases(tier, chk.seed)
+    jobs, tr = [], 1
+    for ch in core.chunked(cases, 16):
+        jobs.append((ch, tr))
+        tr += len(ch)
+    eval_recs, eval_log = [], []
+    for recs, log in core.pool_map(eval_chunk, jobs, procs=8):
+        eval_recs += recs
+        eval_log += log
+    n_stress = 6 if tier == 'quick' else 24
+    sjobs = []
+    for k in range(n_stress):
+        mode, inst = [('real', ['L1']), ('sim', ['L1']), ('sim', ['L1', 'FB']), ('sim', [])][k % 4]
+        sjobs.append(((mode, inst, 2 + k % 2, 30 if tier == 'quick' else 60, chk.seed * 1000 + k), tr))
+        tr += 1
+    stress_recs, stress_log = [], []
+    for recs, log in core.pool_map(stress_chunk, [[j] for j in sjobs], procs=6):
+        stress_recs += recs
+        stress_log += log
+    thr = _in_child(_threads_job, (8, 3 if tier == 'quick' else 12))
+    print(f'  stage A: {len(eval_recs)} monitored evaluations ({len(eval_log)} events), {len(stress_recs)} stress traces '
+          f'({len(stress_log)} events), {thr["evaluations"]} threaded evaluations  {time.time() - t0:.1f}s', flush=True)
+
+    # ---- stage B: everything TLC, in parallel ---------------------------------------------------
+    t0 = time.time()
+    sd = chk.scratch
+
+    def tlc_lock(name, consts, invs=(), props=(), spec='Spec', dump=False, workers=4):
+        wd = os.path.join(sd, name)
+        dot = os.path.join(wd, 'g.dot') if dump else None
+        cfg = tla.cfg_text(consts, spec=spec, invariants=list(invs), properties=list(props))
+        r = tla.run_tlc('CollationLock', cfg, wd, workers=workers, dump_dot=dot, timeout=3000)
+        return name, r, dot
+
+    tasks = []
+    ex = ThreadPoolExecutor(max_workers=5)
+    design = DESIGN_CONFIGS[tier]
+    tasks.append(ex.submit(tlc_lock, 'design-property', _consts(**design), SAFETY, workers=8))
+    live = LIVE_CONFIG
+    tasks.append(ex.submit(tlc_lock, 'live-property', _consts(**live), (), ['EveryCallReturns'], 'FairSpec'))
+    if tier == 'thorough':
+        tasks.append(ex.submit(tlc_lock, 'live-property-3thr', _consts(**LIVE_CONFIG_THOROUGH), (), ['EveryCallReturns'], 'FairSpec'))
+    pin = dict(LIVE_CONFIG, variant='pinned')
+    for inv in ('NoLockLeak', 'NoSelfWait', 'NoStuck'):
+        tasks.append(ex.submit(tlc_lock, f'pinned-{inv}', _consts(**pin), [inv], workers=2))
+    tasks.append(ex.submit(tlc_lock, 'pinned-live', _consts(**pin), (), ['EveryCallReturns'], 'FairSpec', False, 2))
+    for name, kw in REPLAY_CONFIGS[tier]:
+        for variant in ('property', 'pinned'):
+            tasks.append(ex.submit(tlc_lock, f'graph-{name}-{variant}', _consts(variant=variant, **kw), ['TypeOK'], dump=True))
+
+    def tlc_globals():
+        wd = os.path.join(sd, 'globals')
+        dot = os.path.join(wd, 'g.dot')
+        cfg = tla.cfg_text(GLOBALS_CONSTS[tier], invariants=['TypeOK', 'BlindByDefault', 'NonInterference', 'AllowedIsExact',
+                                                               'NeverExpanded'], properties=['EvalPreserves'])
+        return 'globals', tla.run_tlc('Globals', cfg, wd, workers=2, dump_dot=dot), dot
+    tasks.append(ex.submit(tlc_globals))
+    f_mon = ex.submit(monitor_paths, chk)
+    f_ev = ex.submit(validate_traces, chk, eval_log, 'evals', 1, 4 if tier == 'quick' else 8)
+    f_st = ex.submit(validate_traces, chk, stress_log, 'stress', 3, 2 if tier == 'quick' else 6)
+    # binding self-test: an intact trace is accepted, the same trace without its `release` is rejected
+    st_log = []
+    for rec in eval_recs:
+        evs = [e for e in eval_log if e['tr'] == rec['tr']]
+        if rec['outcome'][0] == 'value' and any(e['e'] == 'release' for e in evs) and not rec['obs']:
+            good = [dict(e, tr=900002) for e in evs]
+            k = max(i for i, e in enumerate(evs) if e['e'] == 'release')
+            st_log = [dict(e, tr=900001) for i, e in enumerate(evs) if i != k] + good
+            break
+    f_self = ex.submit(validate_traces, chk, st_log, 'selftest', 1, 2)
+
+    results = {}
+    for f in tasks:
+        name, r, dot = f.result()
+        results[name] = (r, dot)
+        print(f'    tlc {name}: {r.distinct} states {r.wall_s:.1f}s', flush=True)
+    mon = f_mon.result()
+    ev_acc, ev_rej = f_ev.result()
+    st_acc, st_rej = f_st.result()
+    self_acc, self_rej = f_self.result()
+    ex.shutdown()
+    print(f'  stage B: {len(results) + 4} TLC tasks  {time.time() - t0:.1f}s', flush=True)
+
+    # the design
+    for name in ('design-property', 'live-property', 'live-property-3thr', 'globals'):
+        if name in results:
+            r = tla.require_ok(results[name][0], name, min_distinct=40)
+            if _live_re.search(r.output):
+                raise tla.MachineryError(f'{name}: liveness violated in the property variant')
+            chk.model(('Globals/' if name == 'globals' else 'CollationLock/') + name, r)
+    cex = {}
+    for inv in ('NoLockLeak', 'NoSelfWait', 'NoStuck'):
+        r = results[f'pinned-{inv}'][0]
+        if r.violated != inv:
+            raise tla.MachineryError(f'the pinned variant of CollationLock does not violate {inv}: the as-implemented model '
+                                     f'is wrong\n' + '\n'.join(r.output.splitlines()[-20:]))
+        cex[inv] = _act_re.findall(r.output)
+        chk.model(f'CollationLock/pinned-{inv} (violated as expected)', r)
+    r = results['pinned-live'][0]
+    if not _live_re.search(r.output):
+        raise tla.MachineryError('the pinned variant satisfies EveryCallReturns: the as-implemented model is wrong')
+    cex['EveryCallReturns'] = _act_re.findall(r.output)
+    chk.model('CollationLock/pinned-live (violated as expected)', r)
+    chk.coverage['pinned_counterexamples'] = cex
+    chk.coverage['constants'] = {
+        'design': {k: (sorted(v) if isinstance(v, (set, frozenset)) else v) for k, v in design.items()},
+        'replay': {n: {k: (sorted(v) if isinstance(v, (set, frozenset)) else v) for k, v in kw.items()}
+                   for n, kw in REPLAY_CONFIGS[tier]},
+        'globals': {k: sorted(v) for k, v in GLOBALS_CONSTS[tier].items()}}
+    if set(self_acc) != {900002} or [x[0] for x in self_rej] != [900001]:
+        raise tla.MachineryError(f'binding B self-test: accepted={sorted(self_acc)} rejected={[x[0] for x in self_rej]} '
+                                 f'(an intact trace must be accepted, the one without its release rejected)')
+
+    # ---- stage C: binding A -------------------------------------------------------------------
+    t0 = time.time()
+    want_acts = {'Call', 'Acquire', 'ReadCurrent', 'SetLocale', 'Fallback', 'RaiseFromEnter', 'Exit', 'ExitGen', 'Unwind',
+                 'Yield', 'Return', 'Resume', 'Abandon', 'Enter0'}
+    classes: dict = {}
+    tot = collections.Counter()
+    for name, kw in REPLAY_CONFIGS[tier]:
+        _GRAPHS.clear()
+        edges_total = {}
+        for variant in ('property', 'pinned'):
+            r, dot = results[f'graph-{name}-{variant}']
+            tla.require_ok(r, f'graph-{name}-{variant}', min_distinct=100)
+            chk.model(f'CollationLock/graph-{name}-{variant}', r)
+            _GRAPHS[variant] = G(tla.load_dot(dot), variant)
+            os.remove(dot)
+            seen = {e[2] for e in _GRAPHS[variant].edges}
+            need = set(want_acts) | ({'LeakRaise', 'YieldHolding'} if variant == 'pinned' else set())
+            if 'lazy' in kw['kinds']:
+                need |= {'CallArg', 'ResumeLazy'} | ({'LeaveHolding'} if variant == 'pinned' else {'EvalArgs'})
+            if kw['threads'] == 1 or kw.get('depth', 3) >= 2 or variant == 'pinned':
+                pass
+            missing = need - seen - ({'Resume', 'Abandon', 'Yield', 'Return', 'ExitGen'} if 'gen' not in kw['kinds'] else set())
+            if missing:
+                raise tla.MachineryError(f'graph-{name}-{variant}: actions never fired: {sorted(missing)} (vacuous model)')
+        jobs = []
+        for variant in ('property', 'pinned'):
+            g = _GRAPHS[variant]
+            keep = (lambda e: not (e[2] == 'Call' and e[3][2] == 'lazy')) if variant == 'property' else (lambda e: True)
+            paths, covered = cover_paths(g, keep, rnd)
+            edges_total[variant] = (covered, len(g.edges))
+            for i, p in enumerate(paths):
+                jobs.append((variant, 'sim', i, p))
+                S0 = g.states[g.edges[p[0]][0]]
+                if S0['inst'] == frozenset({'L1'}) and S0['lc0'] == 'C' and i % 3 == 0 and \
+                        not _needs_transient(g, p):
+                    jobs.append((variant, 'real', i, p))       # the sandbox's own C library
+        rnd.shuffle(jobs)
+        validated = {'property': set(), 'pinned': set()}
+        for chunk in core.pool_map(replay_chunk, core.chunked(jobs, 128)):
+            for rec, job in chunk:
+                tot['replays'] += 1
+                tot['ops'] += rec['events']
+                tot['threads_left'] += rec['threads_left']
+                validated[job[0]].update(job[3][:rec['matched']])
+                if rec['verdict'] == 'machinery':
+                    raise tla.MachineryError('binding A: ' + rec['what'])
+                if rec.get('note'):
+                    tot[rec['note']] += 1
+                if len(job[3]) >= 8 and (rec['devs'] or job[0] == 'property'):
+                    tot['nontrivial'] += 1
+                if rec['verdict'] == 'fail':
+                    key = json.dumps(rec['features'], sort_keys=True)
+                    ent = classes.get(key)
+                    if ent is None:
+                        classes[key] = [rec, 1]
+                    else:
+                        ent[1] += 1
+                elif 'sample' in rec and rec['result'] == 'conform' and rec['events'] > 8:
+                    chk.sample(rec['sample'], cap=4)
+        for variant in ('property', 'pinned'):
+            tot['transitions'] += len(validated[variant])
+            tot[f'edges_{variant}_validated'] += len(validated[variant])
+            tot[f'edges_{variant}_planned'] += edges_total[variant][0]
+            tot[f'edges_{variant}_total'] += edges_total[variant][1]
+        print(f'  binding A {name}: {len(jobs)} behaviours, validated transitions property '
+              f'{len(validated["property"])}/{edges_total["property"][0]} pinned {len(validated["pinned"])}/'
+              f'{edges_total["pinned"][0]}', flush=True)
+    _GRAPHS.clear()
+    for key, (rec, cnt) in classes.items():
+        _report(chk, rec['features'], rec['case'], rec['expected'], rec['observed'],
+                'behaviour ' + ' '.join(rec['case']['actions'][:14]), cnt)
+        chk.sample(rec['sample'], cap=8)
+    if tot['threads_left']:
+        chk.note(f'{tot["threads_left"]} replay threads did not terminate after tear-down')
+    if tot['pinned_model_outdated']:
+        chk.note(f'{tot["pinned_model_outdated"]} behaviours of the pinned variant are no longer followed by the code '
+                 f'(it does what the property variant says there)')
+    chk.add('transitions', tot['transitions'])
+    chk.add('traces_validated_against_impl', tot['replays'])
+    chk.add('evaluations', tot['replays'])
+    chk.add('distinct_nontrivial', tot['nontrivial'])
+    chk.coverage['binding_A'] = {k: v for k, v in tot.items()}
+    print(f'  stage C binding A: {tot["replays"]} behaviours replayed, {tot["transitions"]} distinct transitions validated '
+          f'{time.time() - t0:.1f}s', flush=True)
+
+    # ---- binding B + API-level verdicts ------------------------------------------------------------
+    rej_ids = {x[0]: x[1] for x in ev_rej + st_rej}
+    groups: dict = {}
+    lockpath = 0
+    for rec in eval_recs:
+        a = ev_acc.get(rec['tr'])
+        if a is None:
+            dev, bad = ['unmodelled'], []
+        else:
+            dev, bad = min(a, key=lambda x: (len(x[0]), len(x[1])))
+        obs = list(rec['obs'])
+        if ('lock_leak' in bad) != ('lock_held' in obs) and a is not None:
+            obs.append('inconsistent')
+        if rec['case']['A'] != 'cp' or (rec['case']['B'] or 'cp') != 'cp':
+            lockpath += 1
+        if dev == ['unmodelled'] or bad or obs:
+            feat = {'part': 'eval', 'deviation': '+'.join(dev) or 'none', 'consequence': '+'.join(bad) or 'none',
+                    'observable': '+'.join(sorted(obs)) or 'none', 'outcome': rec['outcome'][0]}
+            key = json.dumps(feat, sort_keys=True)
+            ent = groups.get(key)
+            if ent is None:
+                case = dict(rec['case'], kind='eval')
+                groups[key] = [feat, case, rec, 1, rej_ids.get(rec['tr'])]
+            else:
+                ent[3] += 1
+    for key, (feat, case, rec, cnt, rejline) in groups.items():
+        _report(chk, feat, case,
+                'LC_COLLATE, lock, decimal context, os.environ as before; a later compare() completes with the same answer; '
+                'the event log is a behaviour of the property variant',
+                {'outcome': rec['outcome'], 'violated_observables': rec['obs'], 'later_probe': rec['probe'],
+                 'lc_collate_after': rec['lc_after'], 'first_unmatched_event': rejline},
+                f'{case["expr"]} vars={case["vars"]} world={case["mode"]}/{case["inst"]}/{case["lc0"]}', cnt)
+    for rec in eval_recs[:: max(1, len(eval_recs) // 4)][:3]:
+        chk.sample({'part': 'eval', 'expr': rec['case']['expr'], 'vars': rec['case']['vars'], 'world': [rec['case']['mode'],
+                    rec['case']['inst'], rec['case']['lc0']], 'outcome': rec['outcome'], 'violated_observables': rec['obs']}, cap=12)
+    for rec in stress_recs:
+        a = st_acc.get(rec['tr'])
+        dev, bad = (['unmodelled'], []) if a is None else min(a, key=lambda x: (len(x[0]), len(x[1])))
+        if dev == ['unmodelled'] or bad or rec['obs']:
+            feat = {'part': 'stress', 'deviation': '+'.join(dev) or 'none', 'consequence': '+'.join(bad) or 'none',
+                    'observable': '+'.join(sorted(rec['obs'])) or 'none'}
+            _report(chk, feat, rec['case'], 'trace accepted by TraceCollation without property violation; sequential answers',
+                    {'diffs': rec['diffs'], 'first_unmatched_event': rej_ids.get(rec['tr'])}, 'seeded stress run', 1)
+    n_traces = len(eval_recs) + len(stress_recs)
+    chk.add('traces_validated_against_impl', n_traces)
+    chk.add('evaluations', 3 * len(eval_recs) + sum(r['evaluations'] for r in stress_recs))
+    chk.add('distinct_nontrivial', lockpath)
+    chk.coverage['binding_B'] = {'eval_traces': len(eval_recs), 'eval_events': len(eval_log), 'stress_traces': len(stress_recs),
+                                 'stress_events': len(stress_log), 'rejected': len(ev_rej) + len(st_rej),
+                                 'eval_traces_on_lock_path': lockpath,
+                                 'self_test': 'intact trace accepted, trace without its release rejected'}
+
+    # ---- Globals ---------------------------------------------------------------------------------
+    r, dot = results['globals']
+    g = tla.load_dot(dot)
+    order, seen, dq = [], set(g.init), collections.deque(g.init)
+    out = g.out()
+    while dq:
+        s = dq.popleft()
+        order.append(s)
+        for (d, a, args) in out[s]:
+            if d not in seen:
+                seen.add(d)
+                dq.append(d)
+    stats, gfails, gsamples = _in_child(globals_worker, (g.states, order, out))
+    gg: dict = {}
+    for feat, case, exp, obs in gfails:
+        key = json.dumps(feat, sort_keys=True)
+        gg.setdefault(key, [feat, case, exp, obs, 0])[4] += 1
+    for feat, case, exp, obs, cnt in gg.values():
+        _report(chk, feat, case, exp, obs, f'{case["expr"]} {case["vars"]} env={case["env"]}', cnt)
+    for s in gsamples[:2]:
+        chk.sample(s, cap=12)
+    chk.add('transitions', stats.get('transitions', 0))
+    chk.add('evaluations', stats.get('evaluations', 0))
+    chk.add('distinct_nontrivial', stats.get('nontrivial', 0))
+    chk.add('traces_validated_against_impl', len(order))
+    chk.coverage['globals'] = stats
+
+    # ---- monitor on C01 vectors, thread exploration --------------------------------------------------
+    chk.add('evaluations', mon['evaluations'])
+    chk.coverage['monitor_on_paths_vectors'] = {'evaluations': mon['evaluations'], 'hits': mon['hits']}
+    for s in mon['samples']:
+        _report(chk, {'part': 'monitor', 'changed': '+'.join(s['changed'])}, {'kind': 'monitor', **s},
+                'process globals unchanged', s['changed'], s['path'], 1)
+    chk.add('evaluations', thr['evaluations'])
+    chk.coverage['exploration_threads'] = {'threads': 8, 'evaluations': thr['evaluations'], 'differences': len(thr['diffs']),
+                                           'label': 'exploration (not model checking): independent Selector objects, '
+                                                    'sys.setswitchinterval(1e-6), compared with the sequential results'}
+    if thr['diffs'] or thr['alive'] or thr['monitor']:
+        d = thr['diffs'][0] if thr['diffs'] else {}
+        _report(chk, {'part': 'threads', 'what': 'hung' if thr['alive'] else ('globals' if thr['monitor'] and not thr['diffs'] else 'answer'),
+                      'expr': d.get('expr', '')},
+                {'kind': 'threads', 'threads': 8, 'rounds': 3}, d.get('sequential'), d.get('concurrent') or thr['monitor'],
+                'independent Selectors on 8 threads', max(1, len(thr['diffs'])))
+    chk.coverage['exhaustive'] = True
+    chk.coverage['rule'] = (
+        'binding A: a path cover of EVERY transition of the dumped CollationLock graphs (property and pinned variant, constants '
+        'in coverage.constants) is replayed on real threads under the gate; a transition counts as validated when the real '
+        'hook events and (lock owner, LC_COLLATE) agreed with the model up to and including it; non-trivial = behaviour of >= 8 '
+        'actions that contains a fault, a generator suspension, an operand call or a second thread. binding B: every monitored '
+        'evaluation / stress run is one trace validated by TLC; non-trivial = the expression takes the lock path. Globals: every '
+        'transition of the graph x {etree,lxml} x {3.0,3.1}.')
+
+
+def _needs_transient(g: G, p) -> bool:
+    """Does the behaviour fail a setlocale of an installed locale (only the simulation can do that)?"""
+    for ei in p:
+        s, d, act, args = g.edges[ei]
+        if act in ('SetLocale', 'Fallback') and args[1] == 'fail':
+            S = g.states[s]
+            idx, f = acting_frame(S, act, args)
+            loc = LOC[f['c']] if act == 'SetLocale' else 'FB'
+            if loc in S['inst']:
+                return True
+    return False
+
+
+def replay(rec: dict) -> int:
+    core.setup_repo_path()
+    case = rec['case']
+    kind = case.get('kind')
+    print('features :', rec.get('features'))
+    print('expected :', rec.get('expected'))
+    if kind == 'plan':
+        res = execute_plan(case['plan'])
+        print('actions  :', case['actions'])
+        print('exprs    :', case['plan']['exprs'])
+        print('observed :', {k: res.get(k) for k in ('kind', 'step', 'expected', 'observed', 'waits', 'locked_at_end')})
+        dev = rec['features'].get('deviation')
+        reproduces = (res['kind'] == 'conform') if rec['features'].get('consequence') != 'diverges' and dev in DEVIATIONS \
+            else (res['kind'] != 'conform')
+    elif kind == 'eval':
+        log: list = []
+        case = dict(case)
+        case['_baseline'] = baseline(case['mode'], case['inst'], case['lc0'])
+        r = eval_case(case, log, 1)
+        print('expr     :', case['expr'], case.get('vars'))
+        print('events   :', [(e['e'], e['v'], e['r']) for e in log])
+        print('observed :', r['outcome'], 'violated observables', r['obs'], 'later probe', r['probe'])
+        reproduces = bool(r['obs']) or r['outcome'][0] in ('self_wait', 'hung', 'hung_alarm')
+    elif kind == 'globals':
+        import elementpath
+        import xml.etree.ElementTree as ET
+        import lxml.etree as LET
+        from elementpath.xpath30 import XPath30Parser
+        from elementpath.xpath31 import XPath31Parser
+        os.environ.clear()
+        for n in case['env']:
+            os.environ[n] = 'value-of-' + n
+        rt = (ET if case['lib'] == 'etree' else LET).XML('<r><a>x</a></r>')
+        try:
+            out = ('value', elementpath.Selector(case['expr'], parser={'3.0': XPath30Parser, '3.1': XPath31Parser}[case['parser']])
+                   .select(rt, variables=dict(case['vars']), **case['kw']))
+        except Exception as e:
+            out = ('raised', type(e).__name__, str(e)[:100])
+        print('expr     :', case['expr'], case['vars'], 'env', case['env'])
+        print('observed :', out)
+        if out[0] == 'raised':
+            out = out[:2] + ('',)
+        obs = project_globals(case['action'], out if out[0] == 'value' else ('raised', out[1], ''))
+        exp = tuple(rec['expected'])
+        if exp and exp[0] == 'names':
+            exp = ('names', frozenset(exp[1]))
+        if case['action'] == 'AvailVars' and exp == ('empty',):
+            exp = ('names', frozenset())
+        print('projected:', obs)
+        reproduces = exp[0] != 'any' and tuple(obs) != exp
+    elif kind == 'stress':
+        log = []
+        r = stress_trace(case['mode'], case['inst'], case['threads'], case['iters'], case['seed'], log=log, tr=1)
+        print('observed :', r['obs'], r['diffs'])
+        reproduces = bool(r['obs'])
+    elif kind == 'threads':
+        r = threads_exploration(case['threads'], case['rounds'])
+        print('observed :', r['diffs'][:3], r['alive'], r['monitor'])
+        reproduces = bool(r['diffs'] or r['alive'] or r['monitor'])
+    else:
+        print('observed : (no replay for this kind)', kind)
+        reproduces = True
+    if reproduces:
+        print('VIOLATION property=C19 replay=(replayed)')
+        return 1
+    return 0
